@@ -36,7 +36,7 @@ class Config(object):
         self.seed = seed
         self.branch_timeout_ms = 2000
         self.quant_branch_timeout_ms = 400
-        self.prove_timeout_ms = 10000 if tier == 'quick' else 60000
+        self.prove_timeout_ms = 15000 if tier == 'quick' else 60000
         self.max_paths = 4000 if tier == 'quick' else 20000
         self.refute_bound = 6
         self.use_cvc5 = True
